@@ -13,10 +13,12 @@
    ignored).
 
    Not proved (gap, see driver/c17.py UNPROVED): convergence beyond the affine and x^2 - c families;
-   the "affine systems likewise" item of P2; float rounding (tie). *)
+   float rounding (tie).  The "affine systems likewise" item of P2 is proved RELATIVE to the
+   soundness of the step solver (C01's solve_basic_sound, another package), which enters as an
+   explicit premise: newton_sys_affine_partial / newton_sysjac_affine_partial. *)
 From Coq Require Import List Arith Reals Lra ZArith QArith Qcanon.
-From OV Require Import Base.Panic Base.Arith Model.Vector Model.Matrix Model.Newton
-  Proofs.NewtonLoop Proofs.Newton Proofs.NewtonReal Inst.QcInst.
+From OV Require Import Base.Panic Base.Arith Model.Vector Model.Matrix Model.Solve Model.Newton
+  Proofs.Matrix Proofs.NewtonLoop Proofs.Newton Proofs.NewtonJac Proofs.NewtonSys Proofs.NewtonReal Inst.QcInst.
 Import ListNotations.
 Local Open Scope nat_scope.
 
@@ -120,6 +122,23 @@ Check newton_ok_test_held : forall (X E : Type) (step : X -> res (X * bool * lis
     forall j, j < k -> exists xj x' e', niter step j x0 = Ok xj /\ step xj = Ok (x', false, e').
 Print Assumptions newton_ok_test_held.
 
+(* the stopping test of a system pass, spelled out: || f(x) ||_inf <= tol, and the new iterate is
+   x - dx with dx the answer of solve_basic on the (finite-difference) Jacobian *)
+Theorem sys_pass_spec : forall (O : NOps) tl dl (f : list (NA O) -> res (list (NA O))) x x' b e,
+  sys_step O tl dl f x = Ok (x', b, e) ->
+  exists fv maxres J jev dx,
+    f x = Ok fv /\ norm_inf O fv = Ok maxres /\ jacobian O f x (emb O dl) = Ok (J, jev) /\
+    solve_basic J fv = Ok dx /\ length dx = length x /\
+    x' = zipw sub x dx /\ b = leb maxres tl /\ e = x :: jev.
+Proof. intros O tl dl f x x' b e H. exact (sys_step_inv O tl dl f x x' b e H). Qed.
+Check sys_pass_spec : forall (O : NOps) tl dl (f : list (NA O) -> res (list (NA O))) x x' b e,
+  sys_step O tl dl f x = Ok (x', b, e) ->
+  exists fv maxres J jev dx,
+    f x = Ok fv /\ norm_inf O fv = Ok maxres /\ jacobian O f x (emb O dl) = Ok (J, jev) /\
+    solve_basic J fv = Ok dx /\ length dx = length x /\
+    x' = zipw sub x dx /\ b = leb maxres tl /\ e = x :: jev.
+Print Assumptions sys_pass_spec.
+
 (* the stopping test of a scalar pass, spelled out: |f(x) / ((f(x+d) - f(x-d)) / (2 d))| <= tol *)
 Theorem scalar_pass_spec : forall (O : NOps) tl dl (f : NA O -> res (NA O)) x x' b e,
   scalar_step O tl dl f x = Ok (x', b, e) ->
@@ -174,6 +193,66 @@ Check newton_sysjac_local : forall (O : NOps) (c : ncfg (NR O) (list (NA O))) (f
   (forall p, In (CF p) evs -> f p = g p) -> (forall p, In (CJ p) evs -> jf p = jg p) ->
   newton_sysjac O c g jg = Ok (r, evs).
 Print Assumptions newton_sysjac_local.
+
+(* ---------------- affine systems over a field: an exact root after at most two passes ----------
+   FULL statement wanted (DESIGN 7, C17 P2 "affine systems likewise"): for nonsingular M the
+   solvers return Ok of the exact root of Mx + c.  PROVED here: whenever the run does not panic
+   it returns Ok x with Mx + c = 0 componentwise, GIVEN the soundness statement of the step solver
+   (solve_basic_sound_stmt = C01's solve_basic_sound).  GAP: (i) that premise is another package's
+   theorem; (ii) absence of a zero-pivot panic for nonsingular M (C01's solve_complete) is not
+   used, hence the "= Ok (r, evs) ->" form.  The order enters only through |0| < |0| = false and
+   |0| <= tol.  (newton_sys_nonvacuous / newton_sysjac_nonvacuous above run such systems at Qc.) *)
+Theorem newton_sys_affine_partial : forall (O : NOps), FieldLaws (NA O) ->
+  forall (M : matrix (NA O)) (c0 : list (NA O)) (tl dl : NR O),
+  wf M -> rows M = cols M -> emb O dl <> zero ->
+  ltb (mag O zero) (mag O zero) = false -> leb (mag O zero) tl = true ->
+  solve_basic_sound_stmt O ->
+  forall n x0 r evs, length x0 = cols M -> 2 <= n ->
+  newton_sys O (mkCfg tl dl n x0) (fun p => Ok (aff O M c0 p)) = Ok (r, evs) ->
+  exists x, r = NOk x /\ is_root O M c0 x.
+Proof.
+  intros O FL M c0 tl dl HW Hsq Hd Hlt Hle Hs n x0 r evs L0 Hn H.
+  exact (newton_sys_affine_lemma O FL M c0 tl dl HW Hsq Hd Hlt Hle Hs n x0 r evs L0 Hn H).
+Qed.
+Check newton_sys_affine_partial : forall (O : NOps), FieldLaws (NA O) ->
+  forall (M : matrix (NA O)) (c0 : list (NA O)) (tl dl : NR O),
+  wf M -> rows M = cols M -> emb O dl <> zero ->
+  ltb (mag O zero) (mag O zero) = false -> leb (mag O zero) tl = true ->
+  solve_basic_sound_stmt O ->
+  forall n x0 r evs, length x0 = cols M -> 2 <= n ->
+  newton_sys O (mkCfg tl dl n x0) (fun p => Ok (aff O M c0 p)) = Ok (r, evs) ->
+  exists x, r = NOk x /\ is_root O M c0 x.
+Print Assumptions newton_sys_affine_partial.
+
+Theorem newton_sysjac_affine_partial : forall (O : NOps), FieldLaws (NA O) ->
+  forall (M : matrix (NA O)) (c0 : list (NA O)) (tl dl : NR O),
+  wf M -> rows M = cols M ->
+  ltb (mag O zero) (mag O zero) = false -> leb (mag O zero) tl = true ->
+  solve_basic_sound_stmt O ->
+  forall n x0 r evs, length x0 = cols M -> 2 <= n ->
+  newton_sysjac O (mkCfg tl dl n x0) (fun p => Ok (aff O M c0 p)) (fun _ => Ok M) = Ok (r, evs) ->
+  exists x, r = NOk x /\ is_root O M c0 x.
+Proof.
+  intros O FL M c0 tl dl HW Hsq Hlt Hle Hs n x0 r evs L0 Hn H.
+  exact (newton_sysjac_affine_lemma O FL M c0 tl dl HW Hsq Hlt Hle Hs n x0 r evs L0 Hn H).
+Qed.
+Check newton_sysjac_affine_partial : forall (O : NOps), FieldLaws (NA O) ->
+  forall (M : matrix (NA O)) (c0 : list (NA O)) (tl dl : NR O),
+  wf M -> rows M = cols M ->
+  ltb (mag O zero) (mag O zero) = false -> leb (mag O zero) tl = true ->
+  solve_basic_sound_stmt O ->
+  forall n x0 r evs, length x0 = cols M -> 2 <= n ->
+  newton_sysjac O (mkCfg tl dl n x0) (fun p => Ok (aff O M c0 p)) (fun _ => Ok M) = Ok (r, evs) ->
+  exists x, r = NOk x /\ is_root O M c0 x.
+Print Assumptions newton_sysjac_affine_partial.
+
+(* a run of the model on such a system at Qc: [[2,1],[1,3]] x + [-3,-5], Ok of the exact root (4/5, 7/5) *)
+Example newton_sys_affine_nonvacuous :
+  let M := @mkM AQ [q 2 1; q 1 1; q 1 1; q 3 1] 2 2 in
+  exists x evs, newton_sys (NReal AQ) cq2 (fun p => Ok (aff (NReal AQ) M [q (-3) 1; q (-5) 1] p)) = Ok (NOk x, evs) /\
+                map this x = [4 # 5; 7 # 5]%Q /\
+                map this (aff (NReal AQ) M [q (-3) 1; q (-5) 1] x) = [0 # 1; 0 # 1]%Q.
+Proof. intros M. do 2 eexists. split; [vm_compute; reflexivity|]. vm_compute. auto. Qed.
 
 (* ---------------- convergence over R: two families ----------------
    (their two Print Assumptions come after both Checks, at the end of the file: the driver's
